@@ -126,7 +126,16 @@ def op_stub_update(w, op):
             raise Violation("C10", "stub-identity", "stub does not carry record uuid / patch uuid / patch index of the real record's newest container")
         # ---- the update, via the stub
         stub.create_patch()
-        for u in op["ops"]:
+        cut = op.get("two_sessions")
+        for i, u in enumerate(op["ops"]):
+            if cut is not None and i == cut % (len(op["ops"]) + 1):
+                # site L stops working and picks the unfinished patch up again later
+                stub.close(commit=False)
+                try:
+                    stub = IH5MFRecord(os.path.join(ldir, r.name), "r+")
+                except Exception as e:
+                    raise Violation("C10", "unfinished-stub-patch-unopenable", f"stub + unfinished patch does not reopen in 'r+' at site L: {type(e).__name__}: {e}")
+                w.probe("stub_patch_resumed_in_second_session")
             ok, _ = T.try_apply(stub, u)
             flags_stub.append(ok)
         stub.commit_patch()
@@ -431,6 +440,8 @@ class SitesEngine:
                 ups.append(u)
             fault = g.choice(["none", "none", "none", "none", "delay", "dup", "corrupt", "lost_manifest"])
             su = {"op": "stub_update", "rec": 0, "ops": ups, "transport": fault, "seed": g.randrange(10**6), "keep_site": g.random() < 0.6}
+            if g.random() < 0.3:
+                su["two_sessions"] = g.randrange(16)
             if fault == "delay":
                 adv = []
                 for _ in range(g.randint(1, 3)):
